@@ -197,6 +197,29 @@ def midnight_texts(report, folder):
                                  signature="excel-midnight-text" if pinned else None)
 
 
+def carriage_returns(report, folder):
+    """Text cells that hold a carriage return (alone, or in front of a line feed): the same values and verdicts from
+    delimited text, ODS and Excel -- under a Text field whose length the cell meets exactly."""
+    import cutplace
+    table = [["1", "ab"], ["2", "a\rb"], ["3", "a\r\nb"], ["4", "\rab"], ["5", "ab\r"], ["6", "a\nb"]]
+    want = [["ok", row] if len(row[1]) == 3 else ["bad"] for row in table]
+    for storage, fmt, suffix in (("csv", "delimited", ".csv"), ("ods", "ods", ".ods"), ("xlsx", "excel", ".xlsx")):
+        cid = cutplace.Cid()
+        cid.read("cid", [["D", "Format", fmt]] + ([["D", "Encoding", "utf-8"]] if fmt == "delimited" else []) + [
+            ["F", "rid"], ["F", "note", "", "", "3", "Text"]])
+        path = os.path.join(folder, "cr" + suffix)
+        write_table(path, storage, table)
+        report.replayed += 1
+        try:
+            got = [["bad"] if isinstance(item, Exception) else ["ok", item] for item in cutplace.rows(cid, path, on_error="yield")]
+        except Exception as error:  # noqa
+            got = "%s: %s" % (type(error).__name__, error)
+        if got != want:
+            report.violation("c17", {"table": table, "storage": storage, "cr": True}, want, got,
+                             "Text field of length 3, cells with carriage returns %r stored as %s: read as %r but %r was stored" % (
+                                 [row[1] for row in table], storage, got, want))
+
+
 def replay(behaviour, report=None):
     core.import_repo()
     folder = core.workdir("c17replay")
@@ -253,6 +276,7 @@ def run(tier, report):
             stored["index"] = index
             record(stored, problems)
         midnight_texts(report, folder)
+        carriage_returns(report, folder)
         if not report.violations and tables:
             corrupted = core.json.loads(core.json.dumps(tables[0]))
             out = corrupted["hist"][0]["fresh"]["out"]
